@@ -22,6 +22,8 @@ import XMT.DecodeGuardsMatter
 import XMT.FragHostile
 import XMT.PacketAlloc
 import XMT.CbkHostile
+import XMT.DispatchLemmas2
+import XMT.DecodeStreamStrs
 
 namespace XMT.Props.C04
 open XMT XMT.Decode
@@ -393,5 +395,128 @@ example : (run (rLs 0) [0xFF, 0xFF, 0xFF, 0xFF, 1]).alloc = 0 := by decide
 example : (match Dns.read [0, 0, 1, 0, 0, 1, 0, 0, 0, 0, 0, 1, 1, 97, 0, 0, 1, 0, 1,
     0xC0, 0x0C, 0, 0xA, 0, 1, 0, 0, 0, 0, 0, 2, 7, 9] with | .ok w => w == [7, 9] | _ => false) = true := by
   decide
+
+
+/-! ### extension round 3: the dispatch arms on a decoded Packet (XMT/Dispatch.lean)
+
+`conn.process` / `processSingle` / `processMultiple` / `conn.resolve`, the tail of `handle` (+ `conn.start`)
+and `receive` as outcome-valued functions in which every method call on a nil `connHost`, every access
+through a nil `*com.Packet` / `*Session`, every assignment into a nil map and every index expression is a
+panicking primitive (`hostP`, `ptrP`, `mset`, `idxP`).  The server side is ANY scripted `connServer`
+(client table, `talkSub` answers, failing `notify`) with ANY hosts (`next()` nil or any packet, any
+channel answers). -/
+
+open XMT.Dispatch in
+/-- **`conn.process` never panics on a decoded packet.**  For EVERY server table `h`, EVERY packet `n`
+(any ID / flags / count field / tags, any list of nested packets, more or fewer than announced), both
+modes `o`, and every connection state `c` that has a host and no nil entry in `c.add` (what
+`Listener.resolve` / `conn.resolve` build, see `dispatch_resolve_total`) — whatever `c.next`, `c.subs`
+(nil or not) hold: the outcome is a reply or an error; in the non-channel mode a successful call leaves a
+reply (`c.next != nil`), which is what `handle` then dereferences. -/
+theorem dispatch_process_total (h : Srv) (c : Conn) (n : In) (o : Bool) (x : Host) (hc : c.host = some x)
+    (hadd : ∀ a ∈ c.add, a.isSome = true) :
+    (process h c n o).isPanic = false ∧
+    (process h c n o).Post (fun c' => c'.host = c.host ∧ (o = false → c'.next.isSome = true)) :=
+  ⟨Post.noPanic (process_post h c n o x hc hadd), process_post h c n o x hc hadd⟩
+
+open XMT.Dispatch in
+/-- **`conn.resolve` never panics**, for every tag list (zero tags, unknown tags, duplicates, a tag that
+names the connection's own client, more than `PacketMaxTags`), every client table and every prior
+sub-client table (nil included); in channel mode (`o`) the connection must have its host (the channel
+threads run between `start` and `stop`).  It only ever appends non-nil packets to `c.add` and leaves
+host and reply alone — the precondition of `dispatch_process_total`. -/
+theorem dispatch_resolve_total (h : Srv) (c : Conn) (s : Host) (t : List Nat) (o : Bool)
+    (hh : o = true → c.host.isSome = true) (hadd : ∀ a ∈ c.add, a.isSome = true) :
+    (resolve h c s t o).isPanic = false ∧
+    (resolve h c s t o).Post (fun c' => c'.host = c.host ∧ c'.next = c.next ∧ ∀ a ∈ c'.add, a.isSome = true) :=
+  ⟨Post.noPanic (resolve_post h c s t o hh hadd), resolve_post h c s t o hh hadd⟩
+
+open XMT.Dispatch in
+/-- **The whole non-channel path of a registered client's packet**: `Listener.talk` builds the conn
+(`Listener.resolve`: host = the Session, no reply yet, tags resolved with `o = false`), runs
+`conn.process`, and `handle` writes the reply and decides between channel and close (`handleTail`,
+`conn.start` included).  For EVERY packet, tag list, server table, `talk` result flag, write outcome:
+no step panics. -/
+theorem dispatch_talk_handle_total (h : Srv) (s : Host) (n : In) (subs : Option SubMap) (e wErr : Bool) :
+    (do
+      let c ← resolve h { host := some s, subs := subs } s n.hd.tags false
+      let c ← process h c n false
+      handleTail true (some c) e (has n.hd.flags fChannel) wErr).isPanic = false := by
+  have h1 := resolve_post h { host := some s, subs := subs } s n.hd.tags false (by simp) (by simp)
+  refine Post.noPanic (Q := fun _ => True) (Post.bind h1 ?_)
+  intro c1 ⟨g1, _, g3⟩
+  refine Post.bind (process_post h c1 n false s g1 g3) ?_
+  intro c2 ⟨_, g5⟩
+  exact handleTail_post c2 e _ wErr (g5 rfl)
+
+open XMT.Dispatch in
+/-- the tail of `handle` (after fix 8cb7ac5) for ANY conn `talk` may return that carries a reply: with or
+without a host, any sub-client table -/
+theorem dispatch_handleTail_total (v : Conn) (e nChan wErr : Bool) (hn : v.next.isSome = true) :
+    (handleTail true (some v) e nChan wErr).isPanic = false :=
+  Post.noPanic (handleTail_post v e nChan wErr hn)
+
+open XMT.Dispatch in
+/-- **`receive(s, l, n)` never panics**: for EVERY nested batch container (any depth, any counts, any
+flags at every level, empty device IDs, fragments announcing 0 / 1 / more), with or without a Session
+(`s == nil` is the call for oneshot packets) and with or without a Listener.  (The reassembly state behind
+the `FlagFrag` arm is `fragDispatch_total`.) -/
+theorem dispatch_receive_total (s : Option Sess) (l : Bool) (t : Tree) : (receive false s l t).isPanic = false :=
+  receive_np s l t
+
+open XMT.Dispatch in
+/-- **The guards are needed** (the panic values are reachable):
+(1) `processMultiple` without `if z == nil { continue }` (fix 5ec5818) panics when the host has nothing
+to send; (2) `handle` without `case v.host == nil` (fix 8cb7ac5) panics on a packet with `FlagChannel`
+from an unregistered device; (3) `receive` without `if s == nil || …` panics on a batch container that
+reaches it without a Session; (4) `resolve` without the `n != nil` test panics when a tagged client has
+nothing to send; (5) `process` on a conn without a host panics (what `conn.stop` must not cause while a
+channel thread is still processing: fix 496804c); (6) the nil-map assignment of `processMultiple` is
+reachable without `if c.subs == nil { c.subs = make(…) }`. -/
+theorem dispatch_guards_needed :
+    (pmStep false {} false { host := some { id := [5] }, next := some {}, subs := some [] } { dev := [5] }).isPanic = true ∧
+    (pmStep true {} false { host := some { id := [5] }, next := some {}, subs := some [] } { dev := [5] }).isPanic = false ∧
+    (handleTail false (some { next := some { id := 3, dev := [5] } }) false true false).isPanic = true ∧
+    (handleTail true (some { next := some { id := 3, dev := [5] } }) false true false).isPanic = false ∧
+    (receive true none true (.node { dev := [5], flags := fMulti ||| (1 <<< 48) } false [.node { dev := [5] } true []])).isPanic = true ∧
+    (receive false none true (.node { dev := [5], flags := fMulti ||| (1 <<< 48) } false [.node { dev := [5] } true []])).isPanic = false ∧
+    (tagStep false { clients := [(1, { id := [6] })] } { id := [5] } false [1] 0 { subs := some [] }).isPanic = true ∧
+    (tagStep true { clients := [(1, { id := [6] })] } { id := [5] } false [1] 0 { subs := some [] }).isPanic = false ∧
+    (process {} {} { hd := { dev := [5] }, subs := [] } false).isPanic = true ∧
+    (pmStep true { subs := [([6], { k := true })] } false { host := some { id := [5] }, next := some {}, subs := none } { dev := [6] }).isPanic = true := by
+  refine ⟨?_, ?_, ?_, ?_, ?_, ?_, ?_, ?_, ?_, ?_⟩ <;> decide
+
+/-- non-vacuity: a multi-device batch of two packets (one for the connection's own client, one for a
+sub-client whose `talkSub` answers with a packet) yields a reply container counting both -/
+example : (match XMT.Dispatch.process
+      { subs := [([6], { k := true, q := 9, r := some { id := 3, dev := [6] } })] }
+      { host := some { id := [5], nxt := some { dev := [5] } } }
+      { hd := { dev := [5], flags := XMT.Dispatch.fMulti ||| XMT.Dispatch.fMultiDevice ||| (2 <<< 48) },
+        subs := [{ id := 32, dev := [5] }, { id := 33, dev := [6] }] } false with
+    | .ok c => (c.next.map fun p => XMT.Flag.len p.flags) == some 2 && c.subs == some [(9, true)]
+    | _ => false) = true := by decide
+
+
+/-! ### extension round 3: `data.ReadStringList` over the stream reader -/
+
+/-- the string list follows the allocation policy of `(*reader).Bytes()`: a list of ONE entry whose
+header announces `MaxSlice` requests 4 TiB from 11 bytes (negation of `alloc ≤ K·len + B`; same known
+finding `alloc:data.reader.(Bytes|ReadStringList)`) -/
+theorem streamStrs_alloc_unbounded :
+    Stream.strsAlloc [[1, 1, 7, 0, 0, 4, 0, 0, 0, 0, 0]] = Facts.maxSlice := by decide
+
+/-- what does hold: `n` rounds of the entry loop request at most `n·(2·MaxSlice + 128)` bytes — per entry
+the announced body buffer (≤ MaxSlice), its `string` copy (≤ MaxSlice, a successful `Bytes()` never
+returns more) and the amortised `append` -/
+theorem streamStrs_alloc_partial (n : Nat) (s : Codec.Stream) :
+    Stream.strsAllocN n s ≤ n * (2 * Facts.maxSlice + XMT.Decode.appendCost) :=
+  Stream.strsAllocN_le n s
+
+-- OPEN: streamStrs_alloc : ∀ s, Stream.strsAlloc s ≤ K * s.flatten.length + B — false on the current code
+-- (witness above).  Also open: the sharper partial bound in terms of the entries really present (the
+-- loop stops at the first entry that is short).
+
+/-- non-vacuity: two well-formed entries cost their bodies twice plus the appends -/
+example : Stream.strsAlloc [[1, 2, 1, 1, 65, 1, 2, 66, 67]] = (1 + 1 + 128) + (2 + 2 + 128) := by decide
 
 end XMT.Props.C04
